@@ -275,6 +275,20 @@ class Interp:
             return f
         return not self.feasible(z3.Not(f))
 
+    def as_bool(self, v):
+        """the Python bool a RETURNED value denotes on this path: True / False for a bool (also a symbolic one that the path
+        condition decides - `r = k in d; if r: ...; return r` returns the membership Boolean, not the constant), None for
+        anything else.  Contracts compare results with this instead of `is True`, so that they do not depend on whether the
+        code returns a literal or a variable holding the same truth value."""
+        if isinstance(v, bool):
+            return v
+        if isinstance(v, SV) and v.k == "bool":
+            if self.valid(v.e):
+                return True
+            if self.valid(z3.Not(v.e)):
+                return False
+        return None
+
     def branch(self, v, label="if") -> bool:
         """Decide the truth of value v on this path, forking when both outcomes are feasible."""
         t = self.truth(v)
